@@ -286,7 +286,7 @@ struct Model {
             if (over_c || over_b || fz) {  // finished and over the limit with the same packet: either report is fine
                 XEv t; t.type = EV_TERM; t.serial = c->serial; t.optional = true;
                 out.push_back(t);
-                ++finish_and_exceed;
+                if (over_c || over_b) ++finish_and_exceed;
             }
         } else if (fz) {
             XEv t; t.type = EV_TERM; t.serial = c->serial; t.optional = true;  // accounting of a FUZZY direction: no claim
@@ -794,6 +794,7 @@ static void gen_conn(Case& cs, Src& s, int i) {
         c.ep[0].port = PORTS[b0 >> 5];
         c.ep[1].port = PORTS[((b0 >> 5) + 1 + (b1 >> 7)) & 7];
         c.relation = "fresh";
+        if ((b1 >> 7) && (b2 & 0x40)) { c.ep[1].port = c.ep[0].port; c.relation = "same-port-both-ends"; }
     };
     switch (rel) {
         default:
@@ -844,9 +845,9 @@ static void gen_conn(Case& cs, Src& s, int i) {
     c.cur[0] = c.isn[0] + 1;
     c.cur[1] = c.isn[1] + 1;
     c.hs = (b4 & 3) != 3;                     // 1 in 4: no handshake (unknown connection / mid-stream attach)
-    c.acoff[0] = (b4 & 0x0c) == 0x0c;
-    c.acoff[1] = (b4 & 0x30) == 0x30;
-    if ((b4 & 0xc0) == 0xc0) c.ign[(b4 >> 2) & 1] = true;
+    c.acoff[0] = (b4 & 0x1c) == 0x1c;       // 1 in 8 per direction: auto cleanup off
+    c.acoff[1] = (b4 & 0x70) == 0x70;
+    if ((b4 & 0x8c) == 0x88) c.ign[(b4 >> 4) & 1] = true;   // 1 in 8: one direction's data ignored
     c.eth = (b2 & 0x80) != 0 && (b3 & 0x80) != 0;
     cs.gidx[c.key] = i;
     cs.g.push_back(c);
@@ -915,10 +916,10 @@ void prop(Src& s, Ctx& ctx) {
             int64_t dt;
             const int64_t K = cs.K;
             if (dtb < 200) dt = dtb;
-            else if (dtb < 240) dt = (int64_t)(dtb - 199) * K / 64;
+            else if (dtb < 246) dt = (int64_t)(dtb - 199) * K / 64;
             else {
-                const int64_t JT[16] = {K - 1, K, K + 1, 2 * K - 1, 2 * K, 2 * K + 1, 3 * K, K / 2, K - 1, K, K + K / 2, 10 * K, K + 1, 2 * K, 1000000, 3600000000LL};
-                dt = JT[dtb - 240];
+                const int64_t JT[10] = {K - 1, K, K + 1, 2 * K - 1, 2 * K, 2 * K + 1, 3 * K, K + K / 2, 10 * K, 3600000000LL};
+                dt = JT[dtb - 246];
                 cs.labels.insert("time-jump");
             }
             cs.now += dt;
@@ -977,8 +978,8 @@ void prop(Src& s, Ctx& ctx) {
                 case BULKB: cs.op_bulk_bytes(gi, gdir, (p1 >> 1) & 3, p2 < 64); break;
                 case FINRST: {
                     APkt p = cs.base(gi, gdir);
-                    p.flags = F_FIN | F_RST | F_ACK;
-                    cs.labels.insert("fin+rst-flags");
+                    p.flags = (p2 & 3) == 3 ? (F_FIN | F_RST | F_ACK) : ((p2 & 3) == 2 ? (F_FIN | F_RST) : F_RST);
+                    if (p.flags & F_FIN) cs.labels.insert("fin+rst-flags");
                     cs.send(p);
                     break;
                 }
